@@ -227,15 +227,15 @@ func main() {
 		r := run.Rand("jobs")
 		// histories: (variant, number of children, histories per child, ops per history, readers, size scale)
 		type hplan struct {
-			v                         string
+			v                          string
 			children, per, ops, rd, sc int
 		}
 		plans := []hplan{
-			{"main", run.N(14, 400), run.N(4, 10), 200, 0, 2},
-			{"main", run.N(3, 50), run.N(3, 10), 200, 3, 1},
-			{"noasm", run.N(8, 200), run.N(4, 10), 200, 0, 2},
-			{"x386", run.N(8, 200), run.N(4, 10), 200, 0, 2},
-			{"race", run.N(10, 150), run.N(4, 10), 200, 3, 1},
+			{"main", run.N(28, 400), run.N(4, 10), 200, 0, 2},
+			{"main", run.N(6, 50), run.N(3, 10), 200, 3, 1},
+			{"noasm", run.N(14, 200), run.N(4, 10), 200, 0, 2},
+			{"x386", run.N(14, 200), run.N(4, 10), 200, 0, 2},
+			{"race", run.N(18, 150), run.N(4, 10), 200, 3, 1},
 		}
 		for _, p := range plans {
 			for k := 0; k < p.children; k++ {
@@ -253,7 +253,7 @@ func main() {
 		}
 		// snappy alone
 		for _, v := range []string{"main", "noasm", "x386"} {
-			for k := 0; k < run.N(4, 40); k++ {
+			for k := 0; k < run.N(6, 40); k++ {
 				jobs = append(jobs, job{v, "snappy", []string{fmt.Sprint(r.U64()), fmt.Sprint(run.N(700, 3000)), fmt.Sprint(run.N(1200, 6000)), fmt.Sprint(run.N(2500, 12000))}, 2})
 			}
 		}
